@@ -225,13 +225,19 @@ def check_conditional_axes(ctx):
     # ObsFcstBased.compute_single
     site = "verif.metric.ObsFcstBased.compute_single"
     f = prog.own_method(site)
-    outs = [o for o in symeval.Evaluator(m, call_hook=within_hook).run(f) if o.kind == "return"]
-    ctx.need(len(outs) == 3, "%s: expected three paths (obs axis, fcst axis, other)" % site)
-    for o in outs:
+    # by cases: the function is folded with the axis fixed to Obs, Fcst and another axis (however its branches are written)
+    cases = []
+    for case in ("Obs", "Fcst", "Time"):
+        evc = symeval.Evaluator(m, call_hook=within_hook)
+        evc.merge_ifs = True
+        outs_c = [o for o in evc.run(f, env={"axis": form.apply("call:verif.axis." + case, [])}) if o.kind == "return"]
+        ctx.need(outs_c, "%s: no return for -x %s" % (site, case.lower()))
+        for o in outs_c:
+            cases.append((case if case in ("Obs", "Fcst") else None, o))
+    for which, o in cases:
         at = o.value.as_atom()
         ctx.need(at is not None and at.func == "self.compute_from_obs_fcst" and len(at.args) >= 2, "%s: unexpected return %s" % (site, o.value))
         a0, a1 = at.args[0], at.args[1]
-        which = "Obs" if _axis_polarity(o, "Obs") else ("Fcst" if _axis_polarity(o, "Fcst") else None)
         if which is None:
             ok = a0.as_atom("getitem") is not None and a0.as_atom("getitem").args[1].const_value() == 0 and \
                 a1.as_atom("getitem") is not None and a1.as_atom("getitem").args[1].const_value() == 1
